@@ -3,10 +3,14 @@ import StraxModel.Generated.OverlapIndices
 /-
   C17 — interval primitives agree with their set-theoretic definitions.
 
-  Every theorem has the form `algorithm = direct quadratic definition` under the documented precondition, for all
-  inputs (no bound on sizes).  Models: `Model/IntervalAlgos.lean`; definitions (`fcInSpec`, `touchSpec`, `overlapSpec`,
+  Theorems have the form `algorithm = direct quadratic definition` under the documented precondition, for all inputs
+  (no bound on sizes).  Models: `Model/IntervalAlgos.lean`; definitions (`fcInSpec`, `touchSpec`, `overlapSpec`,
   `findBreakSpec`, …) and helper lemmas: `Lemmas/IntervalAlgos.lean`.  Hypotheses are the Boolean deciders the model
-  (and the real `_check_*` helpers) evaluate.
+  (and the real `_check_*` helpers) evaluate.  Everything is at full strength except the `sort_by_time` statements that
+  end in `_partial`: they assume `sortRegular` (excludes the float-guard band, open finding
+  C17-sort-guard-band-key-wrap) and / or the fast path (stability fails on the slow path, open finding
+  C17-sort-slow-path-not-stable); each excluded region has a `…_counterexample` proved by `decide`.  `sort_by_time`
+  is modelled as computed (float64 guard, wrapping int64 key, D33-fixed integer `np.ones`).
 -/
 namespace Strax.C17
 open Strax Strax.IntervalAlgos
@@ -217,8 +221,10 @@ theorem sort_stable_perm_sorted_partial (hasChannel : Bool) (x : List CRow)
     List.pairwise_mergeSort (lexLeB_trans hasChannel) (lexLeB_total hasChannel) x,
     fun ys h1 h2 => List.sublist_mergeSort (lexLeB_trans hasChannel) (lexLeB_total hasChannel) h1 h2⟩
 
-/-- the slow path (`np.sort(x, kind="mergesort", order=("time", "channel"))`) orders by (time, channel, remaining fields) -/
-theorem sort_slow_path_spec (hasChannel : Bool) (x : List CRow)
+/-- outside the guard band, the slow path (`np.sort(x, kind="mergesort", order=("time", "channel"))`) orders by (time,
+channel, remaining fields).  Missing part: inputs inside the float-guard band excluded by `sortRegular`, where the code
+does not even take this path although the exact guard says it should (`sort_guard_band_counterexample`). -/
+theorem sort_slow_path_spec_partial (hasChannel : Bool) (x : List CRow)
     (hreg : sortRegular hasChannel x = true) (hbig : sortSpanTooLarge hasChannel x = true) :
     sortByTime hasChannel x = isort (lexAllLeB hasChannel) x := by
   rw [sortByTime_eq_exact hreg]; exact sortByTimeExact_slow hbig
@@ -313,7 +319,10 @@ theorem translation_invariant_overlap (d a1 nA b1 nB : Int) :
     overlapIndices (a1 + d) nA (b1 + d) nB = overlapIndices a1 nA b1 nB :=
   overlapIndices_shift d a1 nA b1 nB
 
-theorem translation_invariant_sort (d : Int) (hasChannel : Bool) (x : List CRow)
+/-- `sort_by_time` commutes with a shift of all times when both the input and the shifted input are outside the guard
+band.  Missing part: the band excluded by `sortRegular` (there the wrapped int64 key is still shift-invariant over
+unbounded `Int`, but this is not proved), and `sortRegular` of the shifted input is assumed rather than derived. -/
+theorem translation_invariant_sort_partial (d : Int) (hasChannel : Bool) (x : List CRow)
     (hreg : sortRegular hasChannel x = true) (hreg' : sortRegular hasChannel (x.map (shiftC d)) = true) :
     sortByTime hasChannel (x.map (shiftC d)) = (sortByTime hasChannel x).map (shiftC d) := by
   rw [sortByTime_eq_exact hreg, sortByTime_eq_exact hreg']; exact sortByTimeExact_shift d hasChannel x
